@@ -99,6 +99,8 @@ type FuncEnc struct {
 	inlinedCallees map[string]bool
 	usedContracts  map[string]bool
 	seenRefs       []string               // reference-valued terms computed so far (see noteRef)
+	specDepth      int                    // >0 while a clause is being evaluated
+	defMode        int                    // >0 while a definitional fact is being stated
 	curGuard       string                 // path condition of the instruction being encoded (guards the facts stated for it)
 	loopWritten    map[string]bool        // refs of non-escaping locals stored to inside the loop being cut (not restored by its havoc)
 	usedFns        map[*ssa.Function]bool // callees whose contract was applied at a call site
@@ -120,6 +122,7 @@ type CallSite struct {
 	recv    *Term
 	rets    []Term
 	pre     *State // state before call
+	nline   int    // number of body lines written before the call (what an assertion at the call may use)
 	block   *ssa.BasicBlock
 	encoded bool
 	depth   int // 0 = the function under verification; >0 = inside an inlined callee
@@ -153,8 +156,9 @@ type edgeKey struct {
 }
 
 type edgeInfo struct {
-	cond string
-	st   *State
+	cond  string
+	st    *State
+	nline int // body lines written when the edge was taken
 }
 
 type loopInfo struct {
@@ -186,7 +190,18 @@ func (fe *FuncEnc) fresh(base string) string {
 	return fmt.Sprintf("%s_%d", base, fe.ctr)
 }
 
-func (fe *FuncEnc) emit(line string) { fe.pre.body = append(fe.pre.body, line) }
+func (fe *FuncEnc) emit(line string) {
+	// Lines written while a clause is being evaluated (spec) or as definitions that hold everywhere (def) are part of
+	// every query; any other assertion is visible only to obligations whose program point comes after it (see query()).
+	if strings.HasPrefix(line, "(assert") {
+		if fe.defMode > 0 {
+			line += " ; def"
+		} else if fe.specDepth > 0 {
+			line += " ; spec"
+		}
+	}
+	fe.pre.body = append(fe.pre.body, line)
+}
 
 func (fe *FuncEnc) declConst(name string, k Sort) {
 	fe.pre.decl(fmt.Sprintf("(declare-const %s %s)", name, k))
@@ -219,7 +234,9 @@ func (fe *FuncEnc) assume(expr string) {
 func (fe *FuncEnc) assumeGlobal(expr string) {
 	g := fe.curGuard
 	fe.curGuard = ""
+	fe.defMode++
 	fe.assume(expr)
+	fe.defMode--
 	fe.curGuard = g
 }
 
